@@ -72,7 +72,7 @@ def mutate(g, dd, kind, a, b):
         others = [o for x in g['edges'] if x is not e and not x['phony'] for o in all_outs(x)]
         if not others:
             return None
-        i = [k for k in stm if lines[k].split()[1].rstrip(":") == key(e)][0]
+        i = [k for k in stm if lines[k].split()[1].rstrip(":") == models._spell(key(e), e.get('dd_spell', 0))][0]
         l = lines[i]
         victim = others[b % len(others)]
         head, tail = l.split(": dyndep")
@@ -80,7 +80,7 @@ def mutate(g, dd, kind, a, b):
         return "\n".join(lines[:i] + [head + ": dyndep" + tail] + lines[i + 1:]) + "\n", False
     if kind == 'cycle':
         e = bound[a % len(bound)]
-        i = [k for k in stm if lines[k].split()[1].rstrip(":") == key(e)][0]
+        i = [k for k in stm if lines[k].split()[1].rstrip(":") == models._spell(key(e), e.get('dd_spell', 0))][0]
         l = lines[i]
         l = l + (" " if ": dyndep |" in l else " | ") + key(e)
         return "\n".join(lines[:i] + [l] + lines[i + 1:]) + "\n", False
